@@ -107,6 +107,7 @@ func genSlot(tier string, r *hx.Rand) []*hx.Case {
 }
 
 func executeSlot(c *hx.Case) (*hx.Result, error) {
+	caseWedged = false
 	if len(c.Ops) == 0 {
 		return &hx.Result{Term: "(SlotCase true false true (@nil N) 1 (@nil N) (@nil N) (@nil N) (@nil N) 2 (@nil N) (@nil N))", Tags: []string{"empty"}}, nil
 	}
@@ -209,7 +210,7 @@ func executeSlot(c *hx.Case) (*hx.Result, error) {
 				if present, _, waiting := opr.VerifCheckpointSlot(); present && len(waiting) > 0 {
 					return 3
 				}
-			case <-time.After(waitFor):
+			case <-time.After(bound()):
 				timedOut()
 				return 4
 			}
